@@ -665,6 +665,10 @@ pub trait Backend: Send + Sync {
     fn seal_key(&self, local: &KeyH, to: &KeyH) -> Out<String>;
     fn unseal_key(&self, s: &str, with: &KeyH) -> Out<KeyH>;
 
+    /// Seal, then unseal the token *object* that came out (no text in between) with the given key and
+    /// assertion: (accepted, payload-decoder calls, validator calls). Payload type Probe, counting validator.
+    fn seal_then_unseal_object(&self, purpose: Purp, seal_key: &KeyH, unseal_key: &KeyH, msg: &[u8], footer: &[u8], aad_seal: &[u8], aad_unseal: &[u8]) -> Out<(bool, u32, u32)>;
+
     /// The raw version-trait entry point behind `decrypt`, on a caller-owned buffer (nonce || ciphertext
     /// || tag as decoded from the token text): (accepted, the buffer afterwards).
     fn raw_local_unseal(&self, key_raw: &[u8], suffix: &str, payload: &[u8], footer: &[u8], aad: &[u8]) -> Out<(bool, Vec<u8>)>;
@@ -1305,6 +1309,25 @@ impl<V: Full> Backend for B<V> {
         guard(|| {
             let w = down::<Key<V, PkeSecret>>(with)?;
             Ok(h(SealedKey::<V>::from_str(s)?.unseal(w)?))
+        })
+    }
+
+    fn seal_then_unseal_object(&self, purpose: Purp, seal_key: &KeyH, unseal_key: &KeyH, msg: &[u8], footer: &[u8], aad_seal: &[u8], aad_unseal: &[u8]) -> Out<(bool, u32, u32)> {
+        guard(|| {
+            crate::payloads::reset_counters();
+            let v = compile::<Probe>(&VSpec::Flag(true));
+            let ok = match purpose {
+                Purp::Local => {
+                    let t = UnsealedToken::<V, Local, Probe>::new(Probe(msg.to_vec())).with_footer(footer.to_vec()).seal(down::<Key<V, Local>>(seal_key)?, aad_seal)?;
+                    t.unseal(down::<Key<V, Local>>(unseal_key)?, aad_unseal, &v).is_ok()
+                }
+                Purp::Public => {
+                    let t = UnsealedToken::<V, Public, Probe>::new(Probe(msg.to_vec())).with_footer(footer.to_vec()).seal(down::<Key<V, Secret>>(seal_key)?, aad_seal)?;
+                    t.unseal(down::<Key<V, Public>>(unseal_key)?, aad_unseal, &v).is_ok()
+                }
+            };
+            let (d, val, _) = crate::payloads::counters();
+            Ok((ok, d, val))
         })
     }
 
